@@ -63,8 +63,34 @@ def run(diff, props, tier="quick"):
     return results
 
 
+def run_scratch(diff, props, tier="quick"):
+    """development mode: same as run() but on a scratch worktree selected with HV_REPO (does not touch /repo)"""
+    wt = tempfile.mkdtemp(prefix="seedrun-", dir="/tmp")
+    os.rmdir(wt)
+    sh(f"git -C /repo worktree add -q {wt} HEAD")
+    results = {}
+    try:
+        rc, out = sh(f"git apply {diff}", cwd=wt)
+        if rc != 0:
+            return {"error": out}
+        env = dict(os.environ, HV_REPO=wt, HV_EVIDENCE_DIR="/tmp/seed-evidence", HV_REPLAY_DIR="/tmp/seed-replays")
+        os.makedirs("/tmp/seed-evidence", exist_ok=True)
+        for p in props:
+            t0 = time.time()
+            rc, out = sh(f"python3-vt -m hv check {p} --tier {tier}", cwd=ROOT, env=env)
+            lines = [l for l in out.splitlines() if l.startswith(("VIOLATION", "KNOWN-FINDING", "CHECKER-CRASH")) or l.startswith(p + ":")]
+            results[p] = {"exit": rc, "seconds": round(time.time() - t0, 1), "lines": [l[:200] for l in lines[:4]]}
+    finally:
+        sh(f"git -C /repo worktree remove --force {wt}")
+    return results
+
+
 def main():
     cmd = sys.argv[1]
+    if cmd == "scratch":
+        r = run_scratch(sys.argv[2], sys.argv[3:])
+        print(os.path.basename(os.path.dirname(os.path.dirname(sys.argv[2]))) + "/" + os.path.basename(sys.argv[2]), " ".join(f"{p}:{x.get('exit')}" for p, x in r.items() if isinstance(x, dict)))
+        return
     if cmd == "confirm":
         print(json.dumps(confirm(sys.argv[2], sys.argv[3]), indent=1))
     elif cmd == "run":
@@ -83,7 +109,11 @@ def main():
                 "false_alarms": [p for p, x in r.items() if isinstance(x, dict) and x.get("exit") == 1 and p != prop],
                 "how_run": "git -C /repo apply patch.diff; python3-vt -m hv check <id> --tier quick; git -C /repo checkout -- ."}
         json.dump(meta, open(os.path.join(d, "meta.json"), "w"), indent=1)
-        print(json.dumps({"name": name, "confirmed": c.get("confirmed"), "detected_by": meta["detected_by"], "checks": {p: (x.get("exit"), x.get("lines", [])[:2]) for p, x in r.items() if isinstance(x, dict)}}, indent=1))
+        print(f"{name}: confirmed={c.get('confirmed')} target={prop} detected_by={meta['detected_by']} exits=" + " ".join(f"{p}:{x.get('exit')}" for p, x in r.items() if isinstance(x, dict)))
+        for p, x in r.items():
+            if isinstance(x, dict) and x.get("exit") not in (0,):
+                for l in x.get("lines", [])[:2]:
+                    print("    ", p, l[:230])
 
 
 if __name__ == "__main__":
